@@ -736,7 +736,12 @@ def crossing_closes(res, W, tier, seed):
         res.count("crossing_close_schedules")
         res.count("own_close_frames_seen", len(closes))
         if pos != len(out["peer"].client_stream):
-            res.violation("wire-garbage", f"crossing closes {tag}: {len(out['peer'].client_stream) - pos} stray bytes on the wire", case, step_call="close")
+            tail = bytes(out["peer"].client_stream[pos:])
+            # what the stray bytes are: the beginning of one masked close frame that was never finished, or something else
+            what = "truncated-close-frame" if tail[0] == 0x88 and (len(tail) < 2 or tail[1] & 0x80) and len(tail) < 6 + (tail[1] & 0x7F if len(tail) > 1 else 125) else "other"
+            res.violation("wire-garbage", f"crossing closes {tag}: {len(tail)} stray bytes on the wire ({what}: {tail[:8].hex()}) behind "
+                          f"{[(f.opcode, f.length) for f in frames]}", case, step_call="close", scenario="crossing-closes", stray=what,
+                          whole_close_frames=len(closes))
         if len(closes) > 1:
             res.violation("second-own-close-frame", f"crossing closes {tag}: the client wrote {len(closes)} close frames {[c.payload for c in closes]}", case, via="threads")
         if not out["conn"].client_closed:
@@ -745,6 +750,14 @@ def crossing_closes(res, W, tier, seed):
             if not isinstance(e, (W.WebSocketException, OSError)):
                 res.violation("internal-exception", f"crossing closes {tag}: {who} raised {type(e).__name__}: {e}", case, got=type(e).__name__)
 
+    # a schedule recorded once by the random exploration (thorough tier, seed 2), replayed on every run: the reader thread is three bytes
+    # into its reply to the server's close frame when the application's close() releases the socket (known finding
+    # C08-close-cuts-the-close-reply-another-thread-is-writing)
+    S = sched.Sched(strategy=sched.ReplayStrategy([2, 2, 2, 2, 2, 2, 2, 2, 2, 2, 2, 2, 2, 2, 1, 2, 1]), horizon=600, watchdog=60)
+    try:
+        judge(S.run(scenario(3)), S, "recorded piece=3")
+    except sched.SimFailure as e:
+        res.violation("hang", f"crossing closes (recorded schedule): {type(e).__name__}: {e}", {"gen": "crossing-closes"}, how=type(e).__name__)
     for piece in (None, 3):
         prefix, n = [], 0
         budget = 400 if tier == "quick" else 6000
